@@ -92,7 +92,7 @@ Definition c2case_ok (c : c2case) : bool :=
        end)
   | CTree _ tb t0 t1 errs =>
       let fo := prim_fops tb in
-      let (t', e) := fold_tree (fold_bin fo) (tree_map lit_in t0) in
+      let (t', e) := fold_tree (fold_bin fo) false (tree_map lit_in t0) in
       xtree_eqb (tree_map lit_out t') t1 && N.eqb e errs
   end.
 
